@@ -814,7 +814,10 @@ Rock::Rebuild::addSlotToEntry(const sfileno fileno, const SlotId slotId, const D
 
         // set total entry size and/or check it for consistency
         if (const uint64_t totalSize = header.entrySize) {
-            assert(totalSize != static_cast<uint64_t>(-1));
+            if (totalSize == static_cast<uint64_t>(-1)) { // a reserved value, not a size
+                freeBadEntry(fileno, "invalid entry size");
+                return;
+            }
             if (!anchor.basics.swap_file_sz) {
                 anchor.basics.swap_file_sz = totalSize;
                 assert(anchor.basics.swap_file_sz != static_cast<uint64_t>(-1));
